@@ -8,7 +8,7 @@ from ..core import pyfacts as pf
 from ..core.defuse import is_identity
 from ..core.effects import effects
 from ..core.larkfacts import grammar_facts
-from ..core.match import txt
+from ..core.match import canon, txt
 from ..core.source import AnchorMissing
 from .common import DEC, DECGRAMMAR, PUTIL, builder_sites, ckey, enclosing_try_parts, fn, returns, stmt_of, where
 
@@ -294,7 +294,7 @@ def c03_6(ctx, ss):
         v = flow.expand(args[0])
         t = txt(v)
         kk = ckey(ff, None, "source")
-        want = "self._parsed_decays[{__elem__(enumerate(self._parsed_decays))[1].children[0].children[0].value: __elem__(enumerate(self._parsed_decays))[0] for i, t in enumerate(self._parsed_decays)}[find_charge_conjugate_match(__elem__(self.list_charge_conjugate_decays()), self.dict_charge_conjugates())]]"
+        want = canon("self._parsed_decays[{__elem__(enumerate(self._parsed_decays))[1].children[0].children[0].value: __elem__(enumerate(self._parsed_decays))[0] for i, t in enumerate(self._parsed_decays)}[find_charge_conjugate_match(__elem__(self.list_charge_conjugate_decays()), self.dict_charge_conjugates())]]")
         if t == want:
             ctx.holds("C03.6", kk, where(ff, st), "source tree = table of find_charge_conjugate_match(CDecay name, ChargeConj table)", 4)
         else:
